@@ -262,6 +262,16 @@ def run(tier, seed):
             rep.inconclusive.append("moved-internal job: %r" % (r,))
         else:
             rep.merge(r)
+    # the all-default local store reached by processes that never call set_store and by processes that call set_store("local")
+    # without directories: what one keeps, the other loads (the default-store job of C16, reported here as a C04 observation)
+    from checks import c16
+
+    djobs = [("implicit", "explicit"), ("explicit", "implicit"), ("implicit", "explicit-cached")]
+    for j, r in zip(djobs, core.fork_map(lambda a: c16.default_store_job(a, prop="C04"), djobs, timeout=900)):
+        if isinstance(r, core.JobFailed):
+            rep.inconclusive.append("default-store job: %r" % (r,))
+        else:
+            rep.merge(r)
     rep.sample({"case": cases[0]["name"], "history": cases[0]["history"][:5]})
     if rep.counters.get("path_loads_checked", 0) == 0:
         rep.inconclusive.append("no path load was observed")
@@ -279,6 +289,11 @@ def replay(payload):
     if payload["case"].get("moved_internal"):
         c = payload["case"]
         rep.merge(moved_internal_job((c["program"], c["cache"], c["idx"])))
+        return rep
+    if payload["case"].get("default_store"):
+        from checks import c16
+
+        rep.merge(c16.default_store_job((payload["case"]["first"], payload["case"]["second"]), prop="C04"))
         return rep
     if payload["case"].get("interleaved"):
         c = payload["case"]
